@@ -15,3 +15,4 @@ pub mod round;
 pub mod generated;
 pub mod domjt;
 pub mod conf;
+pub mod scal;
